@@ -1,2 +1,3 @@
+pub mod chain;
 pub mod client;
 pub mod server;
